@@ -1,4 +1,6 @@
 import Rip.Driver.C20
+import Rip.Driver.C01
+import Rip.Driver.C03
 import Rip.Driver.C06
 import Rip.Driver.C09
 import Rip.Driver.C10
@@ -24,6 +26,8 @@ def dispatch (line : String) : String :=
     | "c17t" => Rip.Driver.C17.handleT rest
     | "c18" => Rip.Driver.C18.handle rest
     | "c20" => Rip.Driver.C20.handle rest
+    | "c01" => Rip.Driver.C01.handle rest
+    | "c03" => Rip.Driver.C03.handle rest
     | "c06" => Rip.Driver.C06.handle rest
     | "c09" => Rip.Driver.C09.handle rest
     | "c10" => Rip.Driver.C10.handle rest
